@@ -485,16 +485,29 @@ pub fn run_case(ctx: &Ctx, prof: &Profile, case: u64, verbose: bool) -> CaseOut 
     let mut conn = Conn::new(stack.memc.clone(), limit);
     let mut m = Model::new(keys.len(), t0);
     let mut texts = ErrTexts::default();
+    // now and then the keys under test live in a store that holds thousands of other items: whole-store
+    // operations (flush, sweeps) then take a different amount of time, nothing else may change
+    let crowd = if !cfg!(miri) && rng.gen_ratio(1, 40) { rng.gen_range(4200..7000usize) } else { 0 };
+    if crowd > 0 {
+        let mut buf = vec![];
+        for i in 0..crowd {
+            wire::store(op::SETQ, format!("crowd-{}", i).as_bytes(), b"c", 0, 0, i as u32, 0).encode_into(&mut buf);
+        }
+        let _ = conn.feed(&buf);
+    }
     let len = if cfg!(miri) { 25 } else { rng.gen_range(prof.len.0..=prof.len.1) };
     let mut out = CaseOut {
         viol: None,
-        trace: vec![format!("case {} seed {:#x} limit {} store {:?} t0 {} sweep {:?} keys {:?}", case, seed, limit, kind, t0, sweep_mode, keys.iter().map(|k| wire::short(k)).collect::<Vec<_>>())],
+        trace: vec![format!("case {} seed {:#x} limit {} store {:?} t0 {} sweep {:?} keys {:?} other items in the store {}", case, seed, limit, kind, t0, sweep_mode, keys.iter().map(|k| wire::short(k)).collect::<Vec<_>>(), crowd)],
         counters: BTreeMap::new(),
         fingerprint: 0,
         nontrivial: false,
         comparisons: 0,
         commands: 0,
     };
+    if crowd > 0 {
+        out.counters.insert("cases_in_a_store_with_thousands_of_other_items".into(), 1);
+    }
     let mut fp: Vec<u8> = vec![];
     let mut mutations = 0u64;
     let mut targets = 0u64;
